@@ -122,7 +122,13 @@ let handle (ws : string list) : string =
   let (z, errs) =
     match !cache with
     | Some (k, v) when k = key -> v
-    | _ -> let v = c08_run (List.map parse_op opw) in cache := Some (key, v); v in
+    | _ ->
+      (* `sp:<n>` only changes how names are spelled towards the implementation *)
+      let opw' = List.filter (fun w -> not (String.length w > 3 && String.sub w 0 3 = "sp:")) opw in
+      let (z0, e0) = c08_run (List.map parse_op opw') in
+      let shift = List.length opw - List.length opw' in
+      let v = (z0, List.map (fun (i, e) -> (n_of_int (int_of_n i + shift), e)) e0) in cache := Some (key, v); v in
+  let q = match q with [qn; qt; _variant] -> [qn; qt] | _ -> q in
   match q with
   | [qn; qt] ->
       let qt = int_of_string qt in
